@@ -1602,14 +1602,15 @@ impl DtlsInner {
         handshake_msg.encode(&mut buf);
         ctx.handshake_messages.extend_from_slice(&buf);
 
-        self.send_handshake_message(
-            handshake_msg,
-            ctx.epoch,
-            &mut ctx.sequence_number,
-            None,
-            is_client,
-        )
-        .await?;
+        let client_key_exchange_record = self
+            .send_handshake_message(
+                handshake_msg,
+                ctx.epoch,
+                &mut ctx.sequence_number,
+                None,
+                is_client,
+            )
+            .await?;
         ctx.message_seq += 1;
 
         // Compute shared secret
@@ -1722,6 +1723,9 @@ impl DtlsInner {
             is_client,
         )?);
         self.conn.send_dtls_record_batch(&flight_records).await?;
+        // The flight to retransmit starts with the ClientKeyExchange: without it a server
+        // that lost it can never derive keys from the repeated ChangeCipherSpec + Finished.
+        flight_records.insert(0, client_key_exchange_record);
         ctx.last_flight_records = Some(flight_records);
         ctx.message_seq += 1;
 
